@@ -29,6 +29,7 @@ type Tok struct {
 	BreakAfter  bool   // a line break may follow (， 、 { 【 ： ？ inside an expression)
 	BreakBefore bool   // a line break may precede (】 })
 	CommaOK     bool   // an optional pause comma may precede this token
+	RawBreaks   string // alternative spelling of a text literal with its line breaks written raw
 }
 
 // Line - one logical line (a statement head or a simple statement)
@@ -56,7 +57,7 @@ type Policy struct {
 
 // LayoutFeatures - names of all variation points
 var LayoutFeatures = []string{"quote-style", "cmp-word", "assign-word", "member-de", "let-word", "prop-word", "pre-line", "inner-break",
-	"cont-indent", "comment-indent", "optional-comma", "extra-space", "opt-space", "ascii-twin", "backtick-id", "trail-comment", "final-eol"}
+	"cont-indent", "comment-indent", "optional-comma", "extra-space", "opt-space", "ascii-twin", "backtick-id", "trail-comment", "final-eol", "raw-linebreak"}
 
 func (p *Policy) pick(n int, what string) int {
 	if p == nil || !p.Rich || n <= 1 {
@@ -247,7 +248,13 @@ func (r *renderer) expr(e Expr, min int) []Tok {
 		if r.pol.pick(2, "quote-style") == 1 {
 			q = "「" + strings.TrimSuffix(strings.TrimPrefix(q, "“"), "”") + "」"
 		}
-		return []Tok{{S: q, K: TStr}}
+		t := Tok{S: q, K: TStr}
+		if strings.ContainsAny(v.V, "\r\n") {
+			// multi-line text (manual ch.6): the line breaks written as such instead of escapes
+			// (the layout decides; not inside a block header, whose last line fixes the indentation of the block)
+			t.RawBreaks = strings.ReplaceAll(strings.ReplaceAll(q, "`LF`", "\n"), "`CR`", "\r")
+		}
+		return []Tok{t}
 	case *Var:
 		return []Tok{r.nameTok(v.Name)}
 	case *RawStr:
@@ -693,6 +700,9 @@ func Layout(lines []Line, pol *Policy) (string, LineMap) {
 				s := t.S
 				if t.Twin != "" && pol.pick(3, "ascii-twin") == 1 {
 					s = t.Twin
+				}
+				if t.RawBreaks != "" && !isHeader && pol.pick(2, "raw-linebreak") == 1 {
+					s = t.RawBreaks
 				}
 				if t.K == TID && pol.pick(8, "backtick-id") == 1 && backtickable(t.S) {
 					s = "`" + t.S + "`"
